@@ -12,6 +12,7 @@ Decided (structural):
  * with_cstore goes through take_constraint / with_constraint for every constraint;
  * process_extension runs diseq, fd, user stages in order on the same extension and the user
    stage is User::process_extension.
+ (round 4, shared with C01) the extension handed to the hook holds exactly the bindings added.
 """
 import hirwalk
 import streams
